@@ -528,3 +528,108 @@ Section Star.
     unfold colsq in Hk. apply in_seq in Hk. split; [lia|exact Hf].
   Qed.
 End Star.
+
+(* ====================== 6. matrices: support, transpose, validity ====================== *)
+Lemma cell_support M i j : wf_matrix M = true -> cell M i j = true -> i < nrows M /\ j < ncols M.
+Proof.
+  intros W H. unfold cell in H.
+  assert (Hi : i < nrows M).
+  { destruct (le_lt_dec (nrows M) i) as [Q|Q]; [|exact Q]. unfold nrows in Q.
+    rewrite (nth_overflow M) in H by exact Q. destruct j; discriminate. }
+  split; [exact Hi|]. rewrite <- (wf_rows M W i Hi). apply nth_true_lt. exact H.
+Qed.
+
+Lemma nth_map_seq' {A} (F : nat -> A) n j d : j < n -> nth j (map F (seq 0 n)) d = F j.
+Proof.
+  intros H. rewrite (nth_indep _ d (F 0)) by (rewrite map_length, seq_length; exact H).
+  rewrite map_nth. rewrite seq_nth by exact H. reflexivity.
+Qed.
+
+Lemma transpose_length M : length (transpose M) = ncols M.
+Proof. unfold transpose. rewrite map_length, seq_length. reflexivity. Qed.
+
+Lemma cell_transpose M i j : wf_matrix M = true -> cell (transpose M) j i = cell M i j.
+Proof.
+  intros W. destruct (le_lt_dec (ncols M) j) as [Q|Q].
+  - unfold cell at 1. rewrite (nth_overflow (transpose M)) by (rewrite transpose_length; exact Q).
+    destruct (cell M i j) eqn:E; [|destruct i; reflexivity].
+    destruct (cell_support M i j W E). lia.
+  - unfold cell at 1. unfold transpose. rewrite nth_map_seq' by exact Q. apply nth_column.
+Qed.
+
+Lemma prefix_run l :
+  (forall x y, y <= x -> nth x l false = true -> nth y l false = true) -> run_len l = count_true l.
+Proof.
+  induction l as [|b l IH]; intros H; [reflexivity|]. rewrite count_true_cons. destruct b.
+  - cbn [run_len b2n]. rewrite IH; [lia|]. intros x y Hxy Hx. apply (H (S x) (S y)); [lia|exact Hx].
+  - cbn [run_len b2n].
+    assert (Z : forall x, nth x l false = false).
+    { intros x. destruct (nth x l false) eqn:E; [|reflexivity].
+      specialize (H (S x) 0 ltac:(lia) E). discriminate. }
+    clear - Z. induction l as [|b l IH]; [reflexivity|]. rewrite count_true_cons.
+    pose proof (Z 0) as Z0. cbn in Z0. subst b. cbn [b2n]. apply IH. intros x. exact (Z (S x)).
+Qed.
+
+(* converse of [counting]: when every walked segment consists of its leading run only,
+   the cell-count test succeeds *)
+Lemma valid_intro M t : wf_matrix M = true -> trunk_full M t -> empty_corners M t = true ->
+  (forall j, clo t <= j <= chi t -> run_len (segN M t j) = count_true (segN M t j)) ->
+  (forall j, clo t <= j <= chi t -> run_len (segS M t j) = count_true (segS M t j)) ->
+  (forall i, rlo t <= i <= rhi t -> run_len (segW M t i) = count_true (segW M t i)) ->
+  (forall i, rlo t <= i <= rhi t -> run_len (segE M t i) = count_true (segE M t i)) ->
+  valid M t = true.
+Proof.
+  intros W [(T1 & T2 & T3 & T4) TF] EC RN RS RW RE.
+  unfold valid. apply Nat.eqb_eq. rewrite (num_cells_blk M W).
+  rewrite (seq_split3 (nrows M) (rlo t) (rhi t) T1 T2).
+  rewrite !blk_app_r.
+  rewrite (seq_split3 (ncols M) (clo t) (chi t) T3 T4).
+  rewrite !blk_app_c.
+  unfold empty_corners in EC. apply negb_true_iff in EC.
+  apply orb_false_iff in EC. destruct EC as [EC E4].
+  apply orb_false_iff in EC. destruct EC as [EC E3].
+  apply orb_false_iff in EC. destruct EC as [E1 E2].
+  rewrite (blk_zero M _ _ (any_cell_false M _ _ _ _ E1)).
+  rewrite (blk_zero M _ _ (any_cell_false M _ _ _ _ E2)).
+  rewrite (blk_zero M _ _ (any_cell_false M _ _ _ _ E3)).
+  rewrite (blk_zero M _ _ (any_cell_false M _ _ _ _ E4)).
+  rewrite (blk_full M (seq (rlo t) (S (rhi t) - rlo t)) (seq (clo t) (S (chi t) - clo t))).
+  2:{ intros i j Hi Hj. apply in_seq in Hi. apply in_seq in Hj. apply TF; lia. }
+  rewrite !seq_length.
+  unfold total, area.
+  assert (BN : blk M (seq 0 (rlo t)) (seq (clo t) (S (chi t) - clo t)) =
+               sumf (fun j => count_true (segN M t j)) (seq (clo t) (S (chi t) - clo t))).
+  { rewrite blk_swap. apply sumf_ext. intros j _. unfold segN. rewrite count_true_rev.
+    pose proof (count_seq (column M j) 0 (rlo t)) as Q. cbn [skipn] in Q. rewrite <- Q. apply sumf_ext. intros i _. unfold g.
+    rewrite nth_column. reflexivity. }
+  assert (BS : blk M (seq (S (rhi t)) (nrows M - S (rhi t))) (seq (clo t) (S (chi t) - clo t)) =
+               sumf (fun j => count_true (segS M t j)) (seq (clo t) (S (chi t) - clo t))).
+  { rewrite blk_swap. apply sumf_ext. intros j _. unfold segS.
+    rewrite <- (firstn_all (skipn (S (rhi t)) (column M j))), skipn_length, length_column.
+    rewrite <- (count_seq (column M j) (S (rhi t)) (nrows M - S (rhi t))). apply sumf_ext. intros i _.
+    unfold g. rewrite nth_column. reflexivity. }
+  assert (BW : blk M (seq (rlo t) (S (rhi t) - rlo t)) (seq 0 (clo t)) =
+               sumf (fun i => count_true (segW M t i)) (seq (rlo t) (S (rhi t) - rlo t))).
+  { unfold blk. apply sumf_ext. intros i _. unfold segW. rewrite count_true_rev.
+    pose proof (count_seq (nth i M []) 0 (clo t)) as Q. cbn [skipn] in Q. rewrite <- Q. reflexivity. }
+  assert (BE : blk M (seq (rlo t) (S (rhi t) - rlo t)) (seq (S (chi t)) (ncols M - S (chi t))) =
+               sumf (fun i => count_true (segE M t i)) (seq (rlo t) (S (rhi t) - rlo t))).
+  { unfold blk. apply sumf_ext. intros i Hi. apply in_seq in Hi. unfold segE.
+    rewrite <- (firstn_all (skipn (S (chi t)) (nth i M []))), skipn_length.
+    rewrite (wf_rows M W i) by lia.
+    rewrite <- (count_seq (nth i M []) (S (chi t)) (ncols M - S (chi t))). reflexivity. }
+  rewrite BN, BS, BW, BE. clear BN BS BW BE.
+  change (sum (h_north M t)) with (sumf (fun j => run_len (segN M t j)) (seq (clo t) (S (chi t) - clo t))).
+  change (sum (h_south M t)) with (sumf (fun j => run_len (segS M t j)) (seq (clo t) (S (chi t) - clo t))).
+  change (sum (h_west M t)) with (sumf (fun i => run_len (segW M t i)) (seq (rlo t) (S (rhi t) - rlo t))).
+  change (sum (h_east M t)) with (sumf (fun i => run_len (segE M t i)) (seq (rlo t) (S (rhi t) - rlo t))).
+  rewrite (sumf_ext (fun j => run_len (segN M t j)) (fun j => count_true (segN M t j)))
+    by (intros j Hj; apply in_seq in Hj; apply RN; lia).
+  rewrite (sumf_ext (fun j => run_len (segS M t j)) (fun j => count_true (segS M t j)))
+    by (intros j Hj; apply in_seq in Hj; apply RS; lia).
+  rewrite (sumf_ext (fun i => run_len (segW M t i)) (fun i => count_true (segW M t i)))
+    by (intros j Hj; apply in_seq in Hj; apply RW; lia).
+  rewrite (sumf_ext (fun i => run_len (segE M t i)) (fun i => count_true (segE M t i)))
+    by (intros j Hj; apply in_seq in Hj; apply RE; lia).
+  lia.
+Qed.
